@@ -102,59 +102,88 @@ theorem queueLeaf_find_mono (st : State) (q : Stored) {h : Bytes} {s : Stored} (
   · rw [e]; exact hf
   · rw [e]; exact find_append_of_some q hf
 
+/-! ### extra data -/
+
+theorem decodeCerts_flatMap : ∀ (cs : List Bytes), (∀ d ∈ cs, certOK d) → decodeCerts cs.length (cs.flatMap (vec 3)) = some cs
+  | [], _ => rfl
+  | d :: cs, h => by
+    have hd := h d (List.mem_cons_self ..)
+    have hlt : d.length < 256 ^ 3 := by have := hd.2; omega
+    simp only [List.length_cons, List.flatMap_cons, decodeCerts, readOpaque_vec 3 d _ hlt,
+      decodeCerts_flatMap cs (fun x hx => h x (List.mem_cons_of_mem _ hx)), Option.map_some]
+
+/-- The chain part of the extra data decodes back to exactly the certificates it was built from. -/
+theorem encodeChain_decodes {cs : List Bytes} {b : Bytes} (h : encodeChain cs = some b) :
+    b = certChain cs ∧ readOpaque 3 b = some (cs.flatMap (vec 3), []) ∧ decodeCerts cs.length (cs.flatMap (vec 3)) = some cs := by
+  unfold encodeChain at h
+  split at h
+  · rename_i hc
+    simp only [Option.some.injEq] at h
+    subst h
+    refine ⟨rfl, ?_, decodeCerts_flatMap cs hc.1⟩
+    have := readOpaque_vec 3 (cs.flatMap (vec 3)) [] (by have := hc.2; omega)
+    simpa [certChain] using this
+  · simp at h
+
 /-! ### one request -/
 
+/-- The request clock in milliseconds, as the handler computes it (regenerated expression), is a uint64. -/
+theorem timeMillis_lt (n : Int) : (Gen.timeMillis n).toNat < 2 ^ 64 := by
+  unfold Gen.timeMillis U64.wrap
+  omega
+
 /-- Everything `addChain` does on the success path, spelled out. -/
-theorem addChain_ok {cfg : Cfg} {st st' : State} {now : Nat} {path : List Cert} {pre : Bool} {sct : Sct} {q : Stored}
-    (h : addChain cfg st now path pre = (.ok sct q, st')) :
-    ∃ l chain e e', path = l :: chain ∧ entryOf cfg path pre = some e ∧ now < 2 ^ 64 ∧ e.wf ∧
-      q = ⟨cfg.H l.der, merkleTreeLeaf now e [],
-            if pre then precertChainEntry l.der (chain.map (·.der)) else certChain (chain.map (·.der))⟩ ∧
+theorem addChain_ok {cfg : Cfg} {st st' : State} {nowNanos : Int} {path : List Cert} {pre : Bool} {sct : Sct} {q : Stored}
+    (h : addChain cfg st nowNanos path pre = (.ok sct q, st')) :
+    ∃ leaf e e' extra, path[Gen.leafCertIdx]? = some leaf ∧ entryOf cfg path pre = some e ∧ e.wf ∧
+      encodeExtra pre leaf.der ((path.drop Gen.extraFromIdx).map (·.der)) = some extra ∧
+      q = ⟨cfg.H leaf.der, merkleTreeLeaf (Gen.timeMillis nowNanos).toNat e [], extra⟩ ∧
       st' = (queueLeaf st q).2 ∧
       decodeLeaf (queueLeaf st q).1.leafValue = some (sct.timestamp, e', sct.extensions) ∧
-      sct.version = 0 ∧ sct.logID = cfg.H cfg.logSPKI ∧
-      sct.signedDigest = cfg.H (sctSigInput sct.timestamp e' sct.extensions) ∧ sct.signature = cfg.sign sct.signedDigest := by
+      sct.version = 0 ∧ sct.logID = cfg.H (cfg.K.spkiOf (cfg.K.pub cfg.k)) ∧
+      sct.hashAlg = Gen.tlsSHA256.toNat ∧ sct.sigAlg = sigAlgOf (cfg.K.kind (cfg.K.pub cfg.k)) ∧
+      sct.signedDigest = cfg.H (sctSigInput sct.timestamp e' sct.extensions) ∧ sct.signature = cfg.K.sign cfg.k sct.signedDigest := by
   unfold addChain at h
-  split at h
-  · simp at h
-  rename_i l chain
+  dsimp only at h
   split at h
   · simp at h
   rename_i e he
   split at h
   · simp at h
-  rename_i lv hlv
-  obtain ⟨hts, hw, _, hlv'⟩ := encodeLeaf_some hlv
-  subst hlv'
-  dsimp only at h
+  rename_i leaf hleaf
   split at h
+  · rename_i lv extra hlv hex
+    obtain ⟨_, hw, _, hlv'⟩ := encodeLeaf_some hlv
+    subst hlv'
+    split at h
+    · simp at h
+    rename_i ts e' ext hdec
+    simp only [Prod.mk.injEq, Rsp.ok.injEq] at h
+    obtain ⟨⟨hs, hq⟩, hst⟩ := h
+    subst hs
+    refine ⟨leaf, e, e', extra, hleaf, he, hw, hex, hq.symm, ?_, ?_, rfl, rfl, rfl, rfl, rfl, rfl⟩
+    · rw [← hst, ← hq]
+    · rw [← hq]; exact hdec
   · simp at h
-  rename_i ts e' ext hdec
-  simp only [Prod.mk.injEq, Rsp.ok.injEq] at h
-  obtain ⟨⟨hs, hq⟩, hst⟩ := h
-  subst hs
-  refine ⟨l, chain, e, e', rfl, he, hts, hw, hq.symm, ?_, ?_, rfl, rfl, rfl, rfl⟩
-  · rw [← hst, ← hq]
-  · rw [← hq]; exact hdec
 
 /-- Stored leaves never change: whatever `addChain` answers, a leaf found under a hash before is found after. -/
-theorem addChain_find_mono (cfg : Cfg) (st : State) (now : Nat) (path : List Cert) (pre : Bool) {h : Bytes} {s : Stored}
+theorem addChain_find_mono (cfg : Cfg) (st : State) (now : Int) (path : List Cert) (pre : Bool) {h : Bytes} {s : Stored}
     (hf : st.find h = some s) : (addChain cfg st now path pre).2.find h = some s := by
   unfold addChain
-  split
-  · exact hf
-  split
-  · exact hf
-  split
-  · exact hf
   dsimp only
-  split <;> exact queueLeaf_find_mono _ _ hf
+  split
+  · exact hf
+  split
+  · exact hf
+  split
+  · split <;> exact queueLeaf_find_mono _ _ hf
+  · exact hf
 
 /-- What ties a stored leaf to the history `U`: it is the `MerkleTreeLeaf`, at the clock value of one of the
 submissions, of the entry of a submission whose leaf certificate hashes to the identity hash. -/
 def StoredOK (cfg : Cfg) (U : List Submit) (s : Stored) : Prop :=
-  ∃ sub ∈ U, ∃ l e, sub.path.head? = some l ∧ s.idHash = cfg.H l.der ∧ entryOf cfg sub.path sub.isPrecert = some e ∧
-    sub.now < 2 ^ 64 ∧ e.wf ∧ s.leafValue = merkleTreeLeaf sub.now e []
+  ∃ sub ∈ U, ∃ l e, sub.path[Gen.leafCertIdx]? = some l ∧ s.idHash = cfg.H l.der ∧ entryOf cfg sub.path sub.isPrecert = some e ∧
+    e.wf ∧ s.leafValue = merkleTreeLeaf (Gen.timeMillis sub.now).toNat e []
 
 def Inv (cfg : Cfg) (U : List Submit) (st : State) : Prop := ∀ s ∈ st, StoredOK cfg U s
 
@@ -162,32 +191,31 @@ theorem addChain_inv {cfg : Cfg} {U : List Submit} {st : State} (hinv : Inv cfg 
     Inv cfg U (addChain cfg st sub.now sub.path sub.isPrecert).2 := by
   cases hr : addChain cfg st sub.now sub.path sub.isPrecert with
   | mk r st' =>
-    -- the state is either unchanged or extended by the queued leaf
     unfold addChain at hr
-    split at hr
-    · simp at hr; rw [← hr.2]; exact hinv
-    rename_i l chain hp
+    dsimp only at hr
     split at hr
     · simp at hr; rw [← hr.2]; exact hinv
     rename_i e he
     split at hr
     · simp at hr; rw [← hr.2]; exact hinv
-    rename_i lv hlv
-    obtain ⟨hts, hw, _, hlv'⟩ := encodeLeaf_some hlv
-    dsimp only at hr
-    have hst : st' = (queueLeaf st ⟨cfg.H l.der, lv, if sub.isPrecert then precertChainEntry l.der (chain.map (·.der)) else certChain (chain.map (·.der))⟩).2 := by
-      split at hr <;> (simp only [Prod.mk.injEq] at hr; exact hr.2.symm)
-    simp only
-    rw [hst]
-    rcases (queueLeaf_spec st ⟨cfg.H l.der, lv, if sub.isPrecert then precertChainEntry l.der (chain.map (·.der)) else certChain (chain.map (·.der))⟩).2 with ⟨_, e2⟩ | ⟨_, _, e2⟩
-    · rw [e2]; exact hinv
-    · rw [e2]
-      intro s hs
-      rcases List.mem_append.1 hs with h1 | h1
-      · exact hinv s h1
-      · have : s = ⟨cfg.H l.der, lv, if sub.isPrecert then precertChainEntry l.der (chain.map (·.der)) else certChain (chain.map (·.der))⟩ := by simpa using h1
-        subst this
-        exact ⟨sub, hsub, l, e, by rw [hp]; rfl, rfl, he, hts, hw, hlv'⟩
+    rename_i leaf hleaf
+    split at hr
+    · rename_i lv extra hlv hex
+      obtain ⟨_, hw, _, hlv'⟩ := encodeLeaf_some hlv
+      have hst : st' = (queueLeaf st ⟨cfg.H leaf.der, lv, extra⟩).2 := by
+        split at hr <;> (simp only [Prod.mk.injEq] at hr; exact hr.2.symm)
+      simp only
+      rw [hst]
+      rcases (queueLeaf_spec st ⟨cfg.H leaf.der, lv, extra⟩).2 with ⟨_, e2⟩ | ⟨_, _, e2⟩
+      · rw [e2]; exact hinv
+      · rw [e2]
+        intro s hs
+        rcases List.mem_append.1 hs with h1 | h1
+        · exact hinv s h1
+        · have : s = ⟨cfg.H leaf.der, lv, extra⟩ := by simpa using h1
+          subst this
+          exact ⟨sub, hsub, leaf, e, hleaf, rfl, he, hw, hlv'⟩
+    · simp at hr; rw [← hr.2]; exact hinv
 
 theorem run_inv (cfg : Cfg) (U : List Submit) : ∀ (hist : List Submit) (st : State), Inv cfg U st → (∀ x ∈ hist, x ∈ U) →
     Inv cfg U (run cfg st hist).2
